@@ -33,7 +33,7 @@ def run(ctx):
                             "executed transition ran callbacks of >=3 groups (or internal + event-scoped callback)")
     from framework import run_py_corpus
     ctx.coverage["corpus_programs"] = run_py_corpus(ctx)
-    engine_check(ctx, PROFILE, 800, 20000, nontrivial, monitor=c02_monitor, tag="C02s", mutate=gen.late_listeners)
+    engine_check(ctx, PROFILE, 800, 20000, nontrivial, monitor=c02_monitor, tag="C02s", mutate=gen.late_listeners, share=0.62)
     cov1 = dict(ctx.coverage)
     engine_check(ctx, PROFILE_ASYNC, 300, 8000, nontrivial, monitor=c02_monitor, tag="C02a", mutate=gen.late_listeners)
     for k in ("evaluations", "distinct_nontrivial", "traces_validated_against_impl", "disagreements", "monitor_failures"):
